@@ -139,3 +139,77 @@ Section Range.
     apply loop_inv. unfold sinv; cbn. lra.
   Qed.
 End Range.
+
+(** On an objective that is affine on the bracket, with a sign change and a
+    positive tolerance, FindRoot returns a point whose residual is below the
+    tolerance: the secant trial of the first iteration is the exact root (the
+    halving trial may be accepted before it). *)
+Section Affine.
+  Variable f : R -> option R.
+  Variable fdx : option (R -> R).
+  Variables tol conv : R.
+  Variables a b A B : R.
+  Hypothesis Hf : forall q, a <= q <= b -> f q = Some (A * q + B).
+  Hypothesis Hlo : A * a + B < 0.
+  Hypothesis Hhi : 0 < A * b + B.
+  Hypothesis Hab : a < b.
+  Hypothesis Htol : 0 < tol.
+
+  Theorem sr_find_root_affine x0 n x d :
+    a <= x0 <= b -> (0 < n)%nat ->
+    sr_find_root f fdx tol conv x0 a b n = Some (x, d) ->
+    a <= x <= b /\ d = A * x + B /\ Rabs d < tol.
+  Proof.
+    intros Hx0 Hn H.
+    assert (Hin : a <= x <= b) by (eapply sr_find_root_in_bracket; [| |exact H]; lra).
+    split; [exact Hin|].
+    unfold sr_find_root in H.
+    rewrite (Hf x0 Hx0), (Hf b), (Hf a) in H by lra.
+    unfold gtb in H. runfold.
+    replace (Rltb 0 (A * a + B)) with false in H by (symmetry; apply Rltb_false; lra).
+    replace (Rltb (A * b + B) 0) with false in H by (symmetry; apply Rltb_false; lra).
+    cbn [orb] in H.
+    destruct n as [|n]; [lia|]. cbn [fr_loop] in H.
+    set (s0 := mkFS x0 (A * x0 + B) a (A * a + B) b (A * b + B)) in H.
+    assert (HA : A * (b - a) > 0) by lra.
+    assert (HApos : 0 < A).
+    { destruct (Rlt_dec 0 A) as [Hp|Hnp]; [exact Hp|exfalso].
+      assert (0 <= (- A) * (b - a)) by (apply Rmult_le_pos; lra). lra. }
+    assert (HAne : A <> 0) by lra.
+    set (hv := b - (b - a) * fr_half).
+    set (sc := b - (b - a) * (A * b + B) / (A * b + B - (A * a + B))).
+    assert (Hsc : sc = - B / A).
+    { unfold sc. field. split; [exact HAne|]. lra. }
+    assert (Hscin : a <= sc <= b).
+    { rewrite Hsc. split.
+      - apply Rmult_le_reg_r with A; [exact HApos|]. unfold Rdiv. rewrite Rmult_assoc, Rinv_l by lra. lra.
+      - apply Rmult_le_reg_r with A; [exact HApos|]. unfold Rdiv. rewrite Rmult_assoc, Rinv_l by lra. lra. }
+    assert (Hhvin : a <= hv <= b) by (unfold hv, fr_half; runfold; lra).
+    assert (Hfsc : f sc = Some 0).
+    { rewrite (Hf sc Hscin). f_equal. rewrite Hsc. field. exact HAne. }
+    (* the trial list starts with the halving point and the (non-degenerate) secant point *)
+    assert (Htr : exists rest, fr_trials fdx s0 = (hv, false) :: (sc, false) :: rest).
+    { unfold fr_trials. cbn [smax smin smaxd smind sx sd s0]. runfold. fold hv. fold sc.
+      replace (Reqb (A * b + B - (A * a + B)) 0) with false by (symmetry; apply Reqb_false; lra).
+      destruct fdx as [g|]; [|exists []; reflexivity].
+      repeat match goal with |- context [if ?c then _ else _] => destruct c end;
+        cbn [app]; eexists; reflexivity. }
+    destruct Htr as [rest Htr].
+    unfold fr_iter in H. rewrite Htr in H. cbn [fr_try_all] in H.
+    assert (Hnext : forall t, fr_try_one f tol conv (sx s0) sc false t = TryEarly sc 0).
+    { intros t. unfold fr_try_one. rewrite Hfsc. runfold. rewrite Rabs_R0.
+      replace (Rltb 0 tol) with true by (symmetry; apply Rltb_true; exact Htol). reflexivity. }
+    match type of H with
+    | context [fr_try_one f tol conv (sx s0) hv false ?t0] =>
+        destruct (fr_try_one f tol conv (sx s0) hv false t0) as [|xe de|t1] eqn:E1
+    end.
+    - discriminate.
+    - injection H as <- <-. unfold fr_try_one in E1. rewrite (Hf hv Hhvin) in E1. runfold.
+      destruct (Rltb (Rabs (A * hv + B)) tol) eqn:Eh.
+      + injection E1 as <- <-. apply Rltb_true in Eh. split; [reflexivity|exact Eh].
+      + exfalso.
+        repeat match type of E1 with context [if ?c then _ else _] => destruct c end; discriminate.
+    - rewrite Hnext in H. injection H as <- <-. split; [rewrite Hsc; field; exact HAne|].
+      rewrite Rabs_R0. exact Htol.
+  Qed.
+End Affine.
